@@ -246,3 +246,25 @@ package sugardb
 //@   assert @raftApplyCommand#0 {C07,C20} replicated-db: hasdb(arg1) && dbof(arg1) == old(cmddb(server, ctx, conn, replay, embedded)) && arg2 == cmd
 //@   assert @LogCommand#0 {C02,C20} logged-db: arg1 == old(cmddb(server, ctx, conn, replay, embedded)) && !replay
 //@   modifies *
+
+// ---- the background expiry sampler -----------------------------------------------------------------
+// Only keys whose deadline has passed are removed, every other key stays as it was; no lock is held on return (also when
+// the function samples again). Termination of the retry loop (it draws until it finds an unsampled key) is not proved.
+//@ func (*SugarDB).evictKeysWithExpiredTTL props C04,C05,C12,C08
+//@   requires hasdb(ctx) && standalone(server) && server.store[dbof(ctx)] != nil && cachewf(server, dbof(ctx)) && nolocks()
+//@   preserves maps, locks, dbs
+//@   ensures {C04} only-expired: forall k string :: old(has(server.store[dbof(ctx)], k)) && !has(server.store[dbof(ctx)], k) ==> old(expired(server.store[dbof(ctx)][k], $now))
+//@   ensures {C04} kept: forall k string :: has(server.store[dbof(ctx)], k) ==> old(has(server.store[dbof(ctx)], k)) && server.store[dbof(ctx)][k] == old(server.store[dbof(ctx)][k])
+//@   ensures {C20} otherdbs: forall d int :: d != dbof(ctx) ==> server.store[d] == old(server.store[d])
+//@   ensures {C05} released: nolocks()
+//@   ensures {C08} caches: cachewf(server, dbof(ctx))
+//@   loop 0
+//@     invariant onlyrheld(server.keysWithExpiry.rwMutex) && 0 <= sampleSize && sampleSize <= len(server.keysWithExpiry.keys[database]) && len(keys) <= sampleSize && (keys == nil || fresh(keys)) && database == dbof(ctx) && deletedCount == 0
+//@     invariant inv(server, maps) && inv(server, locks) && inv(server, dbs) && cachewf(server, database) && server.store[database] == old(server.store[database])
+//@     invariant forall k string :: (has(server.store[database], k) <==> old(has(server.store[database], k))) && server.store[database][k] == old(server.store[database][k])
+//@   loop 1
+//@     invariant -1 <= rangeindex && rangeindex < len(keys) && onlyheld(server.storeLock) && database == dbof(ctx) && standalone(server)
+//@     invariant inv(server, maps) && inv(server, locks) && inv(server, dbs) && cachewf(server, database) && server.store[database] == old(server.store[database]) && server.store[database] != nil
+//@     invariant forall k string :: old(has(server.store[database], k)) && !has(server.store[database], k) ==> old(expired(server.store[database][k], $now))
+//@     invariant forall k string :: has(server.store[database], k) ==> old(has(server.store[database], k)) && server.store[database][k] == old(server.store[database][k])
+//@     invariant forall d int :: d != database ==> server.store[d] == old(server.store[d])
